@@ -46,11 +46,16 @@ def to_sym(eng, st, v, sort):
     if isinstance(sort, DICT):
         dom = z3.K(sort.key.z3sort(), z3.BoolVal(False))
         mp = z3.K(sort.key.z3sort(), to_z3(to_sym(eng, st, _default(sort.val), sort.val), sort.val))
+        keys = []
         for k, x in v.items():
-            kz = to_z3(to_sym(eng, st, k, sort.key), sort.key)
+            ks = to_sym(eng, st, k, sort.key)
+            keys.append(ks)
+            kz = to_z3(ks, sort.key)
             dom = z3.Store(dom, kz, True)
             mp = z3.Store(mp, kz, to_z3(to_sym(eng, st, x, sort.val), sort.val))
-        return VDict(sort.key, sort.val, dom, mp)
+        r = VDict(sort.key, sort.val, dom, mp)
+        r.concrete_keys = keys          # CPython iterates a dict in insertion order
+        return r
     if isinstance(sort, REF):
         if v is None:
             return VRef(sort.cls, z3.IntVal(0))
